@@ -1,11 +1,24 @@
 """bin/check configuration of property C08 (see bin/props.py)."""
 
-PROP = {
-    "lean": "MpsProps.C08",
-    "theorems": [],
-    "generated": [],
-    "suites": [{"name": "sess-refresh", "quick": 12, "thorough": 200}],
-    "propfields": {"sess-refresh": ["ok"]},
-    "level_text": "Proof + judged sessions: the algebra behind the property is a set of Lean theorems over an arbitrary field / module (see theorem list); histories keygen -> refresh* -> sign for FROST, FROST-Taproot, Doerner, CMP: key unchanged, consistency again, every share changed (t>0), no old/new mixture of a (t+1)-set reconstructs the key, old objects untouched, signing with refreshed material succeeds, a session with a stale signer yields no signature.",
-    "level_note": "Real sessions are sampled (they cost up to seconds each); universality comes from the theorems about the formulas plus the per-function differentials (suite alg) showing that the code computes those formulas.",
-}
+PROP = {'lean': 'MpsProps.C08',
+ 'theorems': ['Mps.C08alg.refresh_preserves_key',
+              'Mps.C08alg.refresh_preserves_group_key',
+              'Mps.C08alg.refresh_preserves_cmp_public_point',
+              'Mps.C08alg.refreshes_preserve_key',
+              'Mps.C08alg.refreshes_consistent',
+              'Mps.C08alg.refresh_mixed_eq',
+              'Mps.C08alg.refresh_mixed_iff',
+              'Mps.C08alg.refresh_mixed_fails_exists',
+              "Mps.C08alg.refresh_mixed_fails_exists'",
+              'Mps.C08alg.share_changes_iff',
+              'Mps.C08alg.doerner_refresh_preserves_sum',
+              'Mps.C08alg.doerner_refreshes_preserve_sum'],
+ 'generated': ['Mps.AlgGen.gen_doernerKeygenShares', 'Mps.AlgGen.gen_frostRefreshStart'],
+ 'suites': [{'name': 'sess-refresh', 'quick': 12, 'thorough': 200}, {'name': 'alg', 'quick': 600, 'thorough': 28000}],
+ 'propfields': {'sess-refresh': ['ok'], 'alg': ['valid', 'match', 'ok']},
+ 'level_text': 'Proof + judged sessions: the algebra behind the property is a set of Lean theorems over an arbitrary field / module (see theorem '
+               'list); histories keygen -> refresh* -> sign for FROST, FROST-Taproot, Doerner, CMP: key unchanged, consistency again, every share '
+               'changed (t>0), no old/new mixture of a (t+1)-set reconstructs the key, old objects untouched, signing with refreshed material '
+               'succeeds, a session with a stale signer yields no signature.',
+ 'level_note': 'Real sessions are sampled (they cost up to seconds each); universality comes from the theorems about the formulas plus the '
+               'per-function differentials (suite alg) showing that the code computes those formulas.'}
